@@ -503,6 +503,24 @@ theorem file_list_refines (f : File) (hf : FileWF f) : fileList f = msList (abs 
   rw [← hb] at this
   rw [abs_of_wf hok hb, this]
 
+/-- **`extract`** computed from the header words and data bytes (first row with that identifier whose status
+    is valid or deprecated, its bytes decoded) = the abstract `extract` of what `abs` reads — for EVERY file. -/
+theorem file_extract_refines (f : File) (id : Nat) : fileExtract f id = msExtract (abs f) id := by
+  unfold fileExtract msExtract abs
+  simp only [List.find?_map]
+  have hp : (fun r : Nat × Nat × Nat => wId r.1 == id && (wStatus r.1 == 3 || wStatus r.1 == 2))
+      = ((fun e : MsEntry => e.id == id && decide (e.status > 1)) ∘ rowEntry (hdrBytes f.n128) f.data) := by
+    funext r
+    have h4 := wStatus_lt r.1
+    simp only [Function.comp, rowEntry]
+    by_cases h3 : wStatus r.1 = 3
+    · simp [h3]
+    · by_cases h2 : wStatus r.1 = 2
+      · simp [h2]
+      · have : ¬ wStatus r.1 > 1 := by omega
+        simp [h3, h2, this]
+  rw [hp]
+
 /-- Commands a history may contain: appended MOCs are acceptable and added live; a status is one of
     removed / deprecated / valid. -/
 def CmdOk : MsCmd → Prop
